@@ -3,6 +3,7 @@ package main
 import (
 	"bytes"
 	"encoding/json"
+	"html"
 	"html/template"
 	"math/rand"
 	"strings"
@@ -19,7 +20,7 @@ func escRun(s string) M {
 	out := b.String()
 	text := strings.TrimPrefix(out[:strings.Index(out, "</p>")], "<p>")
 	attr := out[strings.Index(out, `value="`)+7 : len(out)-2]
-	return M{"s": hx(s), "text": hx(text), "attr": hx(attr), "raw": M{"s": s}}
+	return M{"s": hx(s), "text": hx(text), "attr": hx(attr), "unesc": hx(html.UnescapeString(text)), "raw": M{"s": s}}
 }
 
 func init() {
